@@ -324,12 +324,17 @@ func init() {
 		return func(fr *frame, fn *ssa.Function, args []Val) Val {
 			x, y := bigOf(fr, args[1]), bigOf(fr, args[2])
 			bigOf(fr, args[0])
+			// math/big panics with the plain string "division by zero"
+			bigDivZero := func() {
+				in.path.faults = append(in.path.faults, faultRec{kind: "native-panic", site: "math/big.(*Int)." + kind, msg: "division by zero"})
+				panic(targetPanic{Iface{t: types.Typ[types.String], v: "division by zero", box: 1}})
+			}
 			if y.isConc() {
 				if y.c.Sign() == 0 {
-					fr.fault(nil, "divzero", "division by zero")
+					bigDivZero()
 				}
 			} else if in.ex.branch(in.path, mkEq(y.t, mkInt64(0))) {
-				fr.fault(nil, "divzero", "division by zero")
+				bigDivZero()
 			}
 			a, b := x.term(), y.term()
 			var q, r *Term
@@ -544,6 +549,23 @@ func init() {
 		}
 		opaqueIntUses++
 		return "‹int›"
+	})
+	regBig("Bit", func(fr *frame, fn *ssa.Function, args []Val) Val {
+		x := bigOf(fr, args[0])
+		i, ok := args[1].(int64)
+		if x.isConc() && ok {
+			return int64(x.c.Bit(int(i)))
+		}
+		if !ok || i < 0 || i > 4096 {
+			unsupported("big.Int.Bit with a symbolic index")
+		}
+		// two's complement bit i of x = floor(x / 2^i) mod 2
+		p := mkInt(new(big.Int).Lsh(big.NewInt(1), uint(i)))
+		t := mkIBin(OIMod, mkIBin(OIDiv, x.term(), p), mkInt64(2))
+		if in.intMode {
+			return fromInt(t, 64, false)
+		}
+		return fromBV(mkInt2Bv(t, 64), 64, false)
 	})
 	regBig("Lsh", shift(true))
 	regBig("Rsh", shift(false))
